@@ -117,8 +117,8 @@ theorem C09_history_partial {norm : Text → Text} (t : Text) (ops : List Op) (h
 theorem C09_end_guarded : EndGuarded Generated.endRe := C09L.endRe_guarded
 
 /-- **One step, the whole file.**  A successful invocation whose hypotheses hold (`Spec.stepGoodFull`: "\n" the only
-    line boundary of the old text, no `--merge-copyrights`, not the `.license` pseudo style when replacing, no
-    `REUSE-IgnoreStart` in the old and in the new text, and the *seam* — `Spec.seamOK`: the last line above the header
+    line boundary of the old text, no `--merge-copyrights`, `Spec.styleOK` (for the `.license` pseudo style: every
+    expression of the old text parses), no `REUSE-IgnoreStart` in the old and in the new text, and the *seam* — `Spec.seamOK`: the last line above the header
     has no trailing white space; that line, the last line of the old block and the last line of the new block do not end
     with `"`, `'`, `]`): the new text declares **everything the old text declared, wherever in the text it stood,** and
     everything requested — copyright notices verbatim, licence expressions as the parser normalises them; for any
